@@ -487,3 +487,89 @@ def cache_after_txid(ctx):
         ctx.unsure('%s: lower bound `%s` not recognised' % (q, norm(cmps[0])))
     drop = [n for n in ast.walk(fn) if isinstance(n, ast.If) and norm(n.test) == 'd.txid == after_txid']
     ctx.require(bool(drop), q, 'the entries up to and including after_txid are no longer dropped', fn)
+
+
+@PROP.obligation('C20.http-status', canaries=[
+    mut.replace_expr('services.baseclient', 'BaseClient.request', 'not (self.resp.status_code == 200 or self.resp.status_code == 201)', 'self.resp.status_code > 400', 'HTTP 400 answers are handed to the client as data'),
+    mut.replace_expr('services.baseclient', 'BaseClient.request', 'self.resp.status_code == 429', 'self.resp.status_code == 430', 'rate-limit answers are not an error') if False else
+    mut.replace_expr('services.baseclient', 'BaseClient.request', 'not (self.resp.status_code == 200 or self.resp.status_code == 201)', 'self.resp.status_code >= 500', 'client errors are handed to the client as data'),
+])
+def http_status(ctx):
+    """BaseClient.request, the transport every web provider client uses: the statements that test self.resp.status_code are evaluated for
+    each status class. Every 4xx / 5xx answer (400, 401, 403, 404, 409, 429, 500, 502, 503) raises ClientError - so that
+    Service counts the provider as failed and moves on - and 200 / 201 reach the decoding of the body."""
+    q = 'services.baseclient:BaseClient.request'
+    fn = ctx.repo.func(q)
+    ifs = [n for n in fn.body if isinstance(n, ast.If) and 'status_code' in norm(n.test)]
+    if not ifs:
+        ctx.undecided('BaseClient.request: status test not found at statement level')
+    I = ('var', 'self')
+    res = {}
+    for code in (200, 201, 400, 401, 403, 404, 409, 429, 500, 502, 503):
+        it = Interp(ctx.repo, 'services.baseclient', self_cls='services.baseclient:BaseClient')
+        st = State(env={'self': S(I), 'log_url': 'u', 'resp_text': 't'})
+        st.heap[('attr', ('attr', I, 'resp'), 'status_code')] = code
+        it.frames.append([])
+        end = st
+        try:
+            for n in ifs:
+                end = it.exec_stmt(n, end)
+                if end is None:
+                    break
+        except AnalysisError as e:
+            ctx.undecided('BaseClient.request: status handling not evaluable for %d: %s' % (code, str(e)[:80]))
+        kinds = set(e.kind for e in it.frames[-1])
+        res[code] = 'raises' if end is None and kinds == {'raise'} else ('continues' if end is not None and not kinds else 'mixed')
+    ctx.saw('status -> %s' % res)
+    for code, r in sorted(res.items()):
+        if code in (200, 201):
+            ctx.require(r == 'continues', q, 'a %d answer does not reach the decoding of the body (%s)' % (code, r), ifs[0])
+        else:
+            ctx.require(r == 'raises', q, 'an HTTP %d answer is not an error: its body is decoded and returned to the provider client as data' % code, ifs[0],
+                        'the error text of the provider is the "answer": Service does not fail over to the next provider and returns e.g. "Invalid hex string" as a raw transaction / txid')
+
+
+@PROP.obligation('C20.per-address-store', canaries=[
+    mut.replace_expr(SVC, 'Service.getbalance', 'self.cache.store_address(addresslist[0], balance=balance)', 'self.cache.store_address(addresslist[0], balance=tot_balance)', 'running total of the call stored as the balance of one address'),
+])
+def per_address_store(ctx):
+    """Service methods cache a balance per ADDRESS (cache.store_address(address, balance=...)). The stored value must describe that one
+    address: it does not derive from a running total - a variable that a loop of the method accumulates with += over several addresses /
+    cache entries. In getbalance the stored value is the answer of the provider call for the remaining single address, nothing else."""
+    m = ctx.repo.mod(SVC)
+    n = 0
+    for q, f in sorted(m.functions.items()):
+        if not q.startswith('Service.'):
+            continue
+        stores = [c for c in ast.walk(f) if isinstance(c, ast.Call) and norm(c.func) == 'self.cache.store_address']
+        if not stores:
+            continue
+        rd = ReachingDefs(f)
+        accum = set(d.name for d in rd.defs if d.kind == 'aug')
+        for c in stores:
+            bal = next((k.value for k in c.keywords if k.arg == 'balance'), None)
+            if bal is None:
+                continue
+            n += 1
+            nid = rd.node_of_ast(c)
+            # names the stored expression depends on, transitively through local definitions
+            seen, todo = set(), [x.id for x in ast.walk(bal) if isinstance(x, ast.Name)]
+            while todo:
+                nm = todo.pop()
+                if nm in seen:
+                    continue
+                seen.add(nm)
+                for d in rd.defs:
+                    if d.name == nm and d.value is not None:
+                        v = d.value.value if d.kind == 'aug' else d.value
+                        todo += [x.id for x in ast.walk(v) if isinstance(x, ast.Name)]
+            hit = sorted(seen & accum)
+            lv = rd.leaves(bal, nid)
+            ctx.saw('%s: store_address(balance=%s) <- %s' % (q, norm(bal), sorted(x[1] for x in lv if x[0] == 'call')))
+            if hit:
+                ctx.violate(SVC + ':' + q, 'the balance cached for one address (`%s`) derives from the running total `%s` that the method accumulates over several addresses' % (norm(c)[:80], hit[0]), c,
+                            'after getbalance([a, b]) with a served from the cache, b is cached with balance(a) + balance(b): later queries for b alone answer the sum, from the cache, whatever the providers say')
+            if q == 'Service.getbalance':
+                ok = set(x for x in lv if x[0] in ('call', 'attr')) <= {('call', 'self._provider_execute')}
+                ctx.require(ok or bool(hit), SVC + ':' + q, 'the balance cached by getbalance derives from %s, expected only the provider answer of this request' % sorted(str(x) for x in lv if x[0] in ('call', 'attr')), c)
+    ctx.floor(n, 2, 'store_address calls with a balance')
